@@ -284,6 +284,10 @@ def consume_local(body, l, ty, depth=0):
                 else:
                     classes.append(('passed', 'passed to %s' % (cc.rdef or cc.callee)))
         elif k == 'ref':
+            if len(how) > 2 and any(isinstance(e, dict) and 'dc' in e for e in (how[2] or [])):
+                # `Ok(idx) if idx < len => ..`: the *payload* is borrowed for a match guard, after the variant test
+                # (covered by the 'discr' use); the failure itself is not handed anywhere
+                continue
             # &L passed to a test?
             rl = how[1]
             sub = uses_of_local(body, rl)
